@@ -48,6 +48,12 @@ func baseProfile(r *rand.Rand) *profile.Profile {
 		}
 		p.Sample = append(p.Sample, s)
 	}
+	if r.Intn(3) == 0 {
+		// profile-diff shape: entries whose values cancel to zero are not shown, and no edge may refer to them
+		s := p.Sample[r.Intn(len(p.Sample))]
+		neg := &profile.Sample{Location: s.Location, Label: s.Label, NumLabel: s.NumLabel, NumUnit: s.NumUnit, Value: []int64{-s.Value[0], -s.Value[1]}}
+		p.Sample = append(p.Sample, neg)
+	}
 	return p
 }
 
